@@ -77,6 +77,74 @@ class FakeServer(BaseComponent):
         self.errors.append(f'{etype.__name__}: {evalue}')
 
 
+# ---- file-like bodies whose read(n) legally returns fewer than n bytes before the end ----------------
+# (only an empty result means end of data: raw pipes, unbuffered sockets, proxied upstream bodies ...)
+FILE_LIKE = ('trickle', 'ragged', 'pipe')
+E2E_RAGGED = (4096, 1, 5000, 4095, 2, 4096, 1000)      # limits after the first one (which is the `piece`)
+E2E_PACKETS = (4096, 1, 4095, 1000)
+
+
+class ShortReader:
+    """read(n) hands out at most `limits[i]` bytes on its i-th call (limits are cycled), never more than n;
+       b'' only at the end of the data"""
+
+    def __init__(self, data, limits):
+        self.data = bytes(data)
+        self.limits = [max(1, int(x)) for x in limits] or [1]
+        self.pos = 0
+        self.calls = 0
+        self.closed = False
+
+    def read(self, n=-1):
+        left = len(self.data) - self.pos
+        if left <= 0:
+            return b''
+        m = min(self.limits[self.calls % len(self.limits)], left)
+        if n is not None and n >= 0:
+            m = min(m, n)
+        self.calls += 1
+        out = self.data[self.pos:self.pos + m]
+        self.pos += m
+        return out
+
+    def close(self):
+        self.closed = True
+
+
+def packet_reader(data, limits, maxmsg=4096):
+    """a real kernel object: the read end (socket.makefile('rb', buffering=0)) of an AF_UNIX SOCK_SEQPACKET
+       pair that the harness has filled with the data as messages of limits[i] (cycled, <= maxmsg) bytes and
+       then shut; every read(n >= maxmsg) returns exactly one message, b'' after the last one"""
+    a, b = socket.socketpair(socket.AF_UNIX, socket.SOCK_SEQPACKET)
+    try:
+        try:
+            b.setsockopt(socket.SOL_SOCKET, socket.SO_SNDBUF, 1 << 20)
+        except OSError:
+            pass
+        b.setblocking(False)
+        limits = [max(1, min(int(x), maxmsg)) for x in limits] or [maxmsg]
+        pos = i = 0
+        while pos < len(data):
+            m = min(limits[i % len(limits)], len(data) - pos)
+            b.send(data[pos:pos + m])       # BlockingIOError: the case is too big for the socket buffer
+            pos += m
+            i += 1
+    except BaseException:
+        a.close()
+        b.close()
+        raise
+    b.close()
+    f = a.makefile('rb', buffering=0)
+    a.close()                               # the file object keeps the socket open until it is closed
+    return f
+
+
+def file_like(kind, data, limits):
+    if kind == 'pipe':
+        return packet_reader(data, limits)
+    return ShortReader(data, limits)
+
+
 # body kinds with response.stream = True although the body is complete (str / bytes / list):
 # 'slistb' sets response.body itself and returns the response, the others return the value
 SIZED_STREAM_FLAG = {'sstr': 'str', 'sbytes': 'bytes', 'slist': 'list', 'slistb': 'list'}
@@ -100,6 +168,9 @@ def make_body(spec, counters=None):
         return g()
     if kind == 'file':
         return io.BytesIO(b''.join(p if isinstance(p, bytes) else p.encode('utf-8') for p in parts))
+    if kind in FILE_LIKE:
+        data = b''.join(p if isinstance(p, bytes) else p.encode('utf-8') for p in parts if p is not None)
+        return file_like(kind, data, spec['limits'])
     raise ValueError(kind)
 
 
@@ -112,6 +183,15 @@ class App(BaseComponent):
         self.table = {}
         self.produced = {}
         self.seen = []
+        self.opened = []        # file-like bodies handed out (a HEAD response never reads or closes its body)
+
+    def close_opened(self):
+        for f in self.opened:
+            try:
+                f.close()
+            except OSError:
+                pass
+        del self.opened[:]
 
     @handler('request', priority=0.5)
     def _on_request(self, event, req, res):
@@ -129,6 +209,12 @@ class App(BaseComponent):
         kind = body['kind']
         if kind in ('str', 'bytes', 'list', 'file'):
             return make_body(body)          # the ordinary way: return the value
+        if kind in FILE_LIKE:               # a stream object; optionally the handler announces its length
+            f = make_body(body)
+            self.opened.append(f)
+            if body.get('clen') is not None:
+                res.headers['Content-Length'] = str(body['clen'])
+            return f
         if kind == 'gen':                   # iterable body, not streamed
             res.body = make_body(body)
             return res
@@ -151,7 +237,7 @@ class App(BaseComponent):
         raise ValueError(kind)
 
 
-def drain(m, limit=3000):
+def drain(m, limit=10000):
     n = 0
     while len(m):
         m.flush()
@@ -234,6 +320,7 @@ def _e2e_controller():
         """/k<kind>/<size>/<piece>/<status>/<tag> -> a body of that kind, size and partition"""
 
         def _begin(self, kind, size, piece, status, tag):
+            self._close_opened()
             parts = e2e_pieces(kind, int(size), int(piece))
             body = e2e_encode(parts)
             self.produced[tag] = (len(body), hashlib.sha256(body).hexdigest())
@@ -266,6 +353,44 @@ def _e2e_controller():
 
         def kfile(self, size, piece, status, tag):         # file object (streamed in BUFSIZE pieces)
             return io.BytesIO(self._begin('file', size, piece, status, tag)[0])
+
+        # file-like results whose read(n) returns fewer than n bytes before the end; the ...L forms announce
+        # Content-Length themselves (as tools.serve_file does)
+        def _close_opened(self):            # bodies of earlier requests (a HEAD response never closes its body)
+            for f in self.opened:
+                try:
+                    f.close()
+                except OSError:
+                    pass
+            del self.opened[:]
+
+        def _file_like(self, kind, size, piece, status, tag, announce):
+            data = self._begin('bytes', size, 0, status, tag)[0]
+            piece = int(piece) or 1000
+            limits = {'trickle': (piece,), 'ragged': (piece,) + E2E_RAGGED, 'pipe': (piece,) + E2E_PACKETS}[kind]
+            f = file_like(kind, data, limits)
+            self.opened.append(f)
+            if announce:
+                self.response.headers['Content-Length'] = str(len(data))
+            return f
+
+        def ktrickle(self, size, piece, status, tag):
+            return self._file_like('trickle', size, piece, status, tag, False)
+
+        def ktrickleL(self, size, piece, status, tag):
+            return self._file_like('trickle', size, piece, status, tag, True)
+
+        def kragged(self, size, piece, status, tag):
+            return self._file_like('ragged', size, piece, status, tag, False)
+
+        def kraggedL(self, size, piece, status, tag):
+            return self._file_like('ragged', size, piece, status, tag, True)
+
+        def kpipe(self, size, piece, status, tag):
+            return self._file_like('pipe', size, piece, status, tag, False)
+
+        def kpipeL(self, size, piece, status, tag):
+            return self._file_like('pipe', size, piece, status, tag, True)
 
         # response.stream = True with a body that is complete already (nothing to stream)
         def ksstr(self, size, piece, status, tag):
@@ -304,6 +429,7 @@ def _e2e_controller():
             raise ValueError(how)
 
     E2ERoot.produced = {}
+    E2ERoot.opened = []
     return E2ERoot
 
 
@@ -349,6 +475,7 @@ class E2EServer:
         self.server = Server(('127.0.0.1', 0), socket_options=opts, display_banner=False)
         self.root = _e2e_controller()()
         self.root.produced = {}
+        self.root.opened = []
         self.root.register(self.server)
         self.watch = _E2EWatch().register(self.server)
         self.thread = None
@@ -384,6 +511,8 @@ class E2EServer:
                 t.join(timeout)
             self._atexit.unregister(srv.stop)      # run() registered it
             done = t is None or not t.is_alive()
+            if done:
+                self.root._close_opened()
             tcp = getattr(srv, 'server', None)
             ls = getattr(tcp, '_sock', None)
             if ls is not None:                     # normally closed by the `stopped` handler
